@@ -16,6 +16,8 @@
 //                                              left (nothing moved, PruneDegenerate may have removed path points)
 //                     R <id> <minX> <maxX> <minY> <maxY>
 //                     P <e> (<node> <ri> <x> <y>)*      ri: TR=0 BR=1 BL=2 TL=3 CENTRE=4
+//                     KD/KS/KB                 after a `construct` / `solve` state: the Straight/BendConstraints the
+//                                              TopologyConstraints instance now holds (c13_cons.h)
 //  * prune-rule : constructed (degenerate) paths handed to the TopologyConstraints constructor, tie of
 //              PruneDegenerate / validTurn to Model/TopoPrune.lean (format: see pruneRuleCase).
 // Inputs are printed before the library is called, so that a sanitizer abort leaves them in
@@ -195,6 +197,8 @@ static void printState(const char *kind, int dim, const topology::Nodes &nodes, 
     fflush(stdout);
 }
 
+#include "c13_cons.h"
+
 // does the closed segment meet the interior of the rectangle shrunk by eps? (generator-side filter
 // for the precondition "initial routes do not pass through nodes"; the verdict is Lean's)
 static bool segHitsRect(double x1, double y1, double x2, double y2, const vpsc::Rectangle *r, double eps) {
@@ -334,6 +338,7 @@ static void solvePhase(vh::Rng &r, Scene &sc, vpsc::Dim dim, int rounds, long am
     {
         topology::TopologyConstraints t(dim, sc.nodes, sc.edges, nullptr, vs, cs);
         printState("construct", (int) dim, sc.nodes, sc.edges);
+        printConstraints(t, sc.edges, (int) dim);
         for (int round = 0; round < rounds && budget > 0; ++round) {
             int mode = (int) r.range(0, 3);
             unsigned drag = r.range(0, n - 1);
@@ -353,6 +358,7 @@ static void solvePhase(vh::Rng &r, Scene &sc, vpsc::Dim dim, int rounds, long am
             do {
                 again = t.solve();
                 printState("solve", (int) dim, sc.nodes, sc.edges);
+                printConstraints(t, sc.edges, (int) dim);
                 --budget;
             } while (again && --loop > 0 && budget > 0);
         }
@@ -479,6 +485,8 @@ static void witnessSolve(Scene &sc, vpsc::Dim dim, const std::vector<double> &de
     g_dim = (int) dim;
     {
         topology::TopologyConstraints t(dim, sc.nodes, sc.edges, nullptr, vs, cs);
+        printState("construct", (int) dim, sc.nodes, sc.edges);
+        printConstraints(t, sc.edges, (int) dim);
         printf("D %d", (int) dim);
         for (unsigned i = 0; i < n; ++i) {
             vs[i]->desiredPosition = des[i]; vs[i]->weight = wts[i];
@@ -486,7 +494,7 @@ static void witnessSolve(Scene &sc, vpsc::Dim dim, const std::vector<double> &de
         }
         printf("\n"); fflush(stdout);
         int loop = 100; bool again;
-        do { again = t.solve(); printState("solve", (int) dim, sc.nodes, sc.edges); } while (again && --loop > 0);
+        do { again = t.solve(); printState("solve", (int) dim, sc.nodes, sc.edges); printConstraints(t, sc.edges, (int) dim); } while (again && --loop > 0);
     }
     for (size_t i = 0; i < cs.size(); ++i) delete cs[i];
     for (size_t i = 0; i < vs.size(); ++i) delete vs[i];
@@ -664,9 +672,10 @@ static void dragPass(Scene &sc, vpsc::Dim dim, const std::vector<double> &des, c
         topology::TopologyConstraints t(dim, sc.nodes, sc.edges, nullptr, vs, cs);
         // the constructor has run PruneDegenerate over every path: nothing moved, paths may have lost points
         printState("construct", (int) dim, sc.nodes, sc.edges);
+        printConstraints(t, sc.edges, (int) dim);
         for (unsigned i = 0; i < n; ++i) { vs[i]->desiredPosition = des[i]; vs[i]->weight = wts[i]; }
         int loop = 100; bool again;
-        do { again = t.solve(); printState("solve", (int) dim, sc.nodes, sc.edges); --budget; } while (again && --loop > 0 && budget > 0);
+        do { again = t.solve(); printState("solve", (int) dim, sc.nodes, sc.edges); printConstraints(t, sc.edges, (int) dim); --budget; } while (again && --loop > 0 && budget > 0);
     }
     for (size_t i = 0; i < cs.size(); ++i) delete cs[i];
     for (size_t i = 0; i < vs.size(); ++i) delete vs[i];
